@@ -1386,9 +1386,9 @@ func getHashCode(n NodeNavigator) uint64 {
 	var sb bytes.Buffer
 	switch n.NodeType() {
 	case AttributeNode, TextNode, CommentNode:
-		sb.WriteString(n.LocalName())
-		sb.WriteByte('=')
-		sb.WriteString(n.Value())
+		// The name and value are free text: they are written after the position
+		// path, where they cannot be mistaken for a part of it.
+		tail := n.LocalName() + "=" + n.Value()
 		// https://github.com/antchfx/htmlquery/issues/25
 		d := 1
 		for n.MoveToPrevious() {
@@ -1404,8 +1404,10 @@ func getHashCode(n NodeNavigator) uint64 {
 			sb.WriteByte('-')
 			sb.WriteString(strconv.Itoa(d))
 		}
+		sb.WriteByte('|')
+		sb.WriteString(tail)
 	case ElementNode:
-		sb.WriteString(n.Prefix() + n.LocalName())
+		tail := n.Prefix() + n.LocalName()
 		d := 1
 		for n.MoveToPrevious() {
 			d++
@@ -1421,6 +1423,8 @@ func getHashCode(n NodeNavigator) uint64 {
 			sb.WriteByte('-')
 			sb.WriteString(strconv.Itoa(d))
 		}
+		sb.WriteByte('|')
+		sb.WriteString(tail)
 	}
 	h := fnv.New64a()
 	h.Write(sb.Bytes())
